@@ -196,6 +196,26 @@ Definition create_params (argslist : list tree) : option (list tree) :=
 
 Definition removelast_n {A} (l : list A) := removelast l.
 
+(* Function.__init__: regroup the children of the `parameters` child *)
+Fixpoint regroup_func (cs : list tree) : pres (list tree) :=
+  match cs with
+  | [] => PErr PAttr   (* "A function should always have parameters" *)
+  | Node (KRule pr) pcs :: t =>
+    if pr =? r_parameters G then
+      let inner := removelast (tl pcs) in
+      if existsb is_param inner then POk (cs)
+      else match create_params inner with
+           | None => PErr PAttr
+           | Some np => match pcs with
+                        | p0 :: _ => match rev pcs with
+                                     | pl :: _ => POk (Node (KRule pr) (p0 :: np ++ [pl]) :: t)
+                                     | [] => PErr PIndex end
+                        | [] => PErr PIndex end
+           end
+    else match regroup_func t with POk t' => POk (Node (KRule pr) pcs :: t') | PErr e => PErr e end
+  | c :: t => match regroup_func t with POk t' => POk (c :: t') | PErr e => PErr e end
+  end.
+
 Definition convert_node (r : N) (children : list tree) : pres tree :=
   if r =? r_suite G then
     match children with
@@ -204,26 +224,7 @@ Definition convert_node (r : N) (children : list tree) : pres tree :=
     | [] => PErr PIndex
     end
   else if r =? r_funcdef G then
-    (* regroup the children of the `parameters` child *)
-    let fix go (cs : list tree) : pres (list tree) :=
-      match cs with
-      | [] => PErr PAttr   (* "A function should always have parameters" *)
-      | Node (KRule pr) pcs :: t =>
-        if pr =? r_parameters G then
-          let inner := removelast (tl pcs) in
-          if existsb is_param inner then POk (cs)
-          else match create_params inner with
-               | None => PErr PAttr
-               | Some np => match pcs with
-                            | p0 :: _ => match rev pcs with
-                                         | pl :: _ => POk (Node (KRule pr) (p0 :: np ++ [pl]) :: t)
-                                         | [] => PErr PIndex end
-                            | [] => PErr PIndex end
-               end
-        else match go t with POk t' => POk (Node (KRule pr) pcs :: t') | PErr e => PErr e end
-      | c :: t => match go t with POk t' => POk (c :: t') | PErr e => PErr e end
-      end in
-    match go children with POk cs => POk (Node (KRule r) cs) | PErr e => PErr e end
+    match regroup_func children with POk cs => POk (Node (KRule r) cs) | PErr e => PErr e end
   else if (r =? r_lambdef G) || (r =? r_lambdef_nocond G) then
     match children with
     | kw :: rest =>
